@@ -329,8 +329,14 @@ class Gen:
             return
         n = self.length(r)
         meth = self.rng.choice(['ljust', 'rjust', 'center', 'center', 'zfill'])
-        o = {'op': 'pad', 'r': r, 'm': meth, 'width': self.rng.choice([0, n - 1, n, n + 1, n + 2, n + 3, n + 4, n + 7, -3]),
-             'inplace': self.ip()}
+        widths = [0, n - 1, n, n + 1, n + 2, n + 3, n + 4, n + 7, -3]
+        cp = [0] + self.change_points(r) + [n]
+        if len(cp) > 2 and self.rng.random() < 0.5:
+            # left padding equal to the distance between two change points
+            a_, b_ = sorted(self.rng.sample(cp, 2))
+            d = b_ - a_
+            widths = [n + d, n + 2 * d, n + 2 * d + 1]
+        o = {'op': 'pad', 'r': r, 'm': meth, 'width': self.rng.choice(widths), 'inplace': self.ip()}
         if meth != 'zfill':
             x = self.rng.random()
             if x < 0.6:
@@ -341,6 +347,28 @@ class Gen:
         e = self.do(o)
         if e['out'] == 'ok' and e['res'] and self.rng.random() < 0.7:
             self.probe_closed(e['res'][0], 'probe_pad_closed')
+
+    ANSI_PARTS = ['bold', 'red', 'bold;red', 'underline;red', '1', '31;1', 'rgb(1,2,3)', 'bg_green', 'nonsense', '', '[38;5;7']
+
+    def g_fmt(self):
+        r = self.pick()
+        if not r or not self.room(3):
+            return
+        n = self.length(r)
+        x = self.rng.random()
+        if x < 0.8:
+            fill = self.rng.choice(['', '', ':', '+', '-', '0', '7', 'x', ' ', '<', '*'])
+            sign = self.rng.choice(['', '', '+', '-'])
+            align = self.rng.choice(['<', '>', '^', '^', '']) if (fill or sign) is not None else ''
+            width = self.rng.choice(['', str(n), str(n + 1), str(n + 2), str(n + 3), str(n + 6), '0', '03'])
+            if not align and self.rng.random() < 0.8:
+                fill, sign = '', ''
+            spec = fill + sign + align + width
+            if self.rng.random() < 0.5:
+                spec += ':' + self.rng.choice(self.ANSI_PARTS)
+        else:
+            spec = ''.join(self.rng.choice('x:+-<^>50 ') for _ in range(self.rng.randint(1, 5)))
+        self.do({'op': 'fmt', 'r': r, 'spec': spec, 'how': self.rng.choice(['format', 'format', 'to_str', 'fstr'])})
 
     def g_strip(self):
         r = self.pick()
@@ -539,7 +567,7 @@ PROFILES = {
                 assign_str=0.5, apply=0.5),
     'C11': dict(nonuniform=2.5, new=0.5, case=1.5, strip=2, rmfix=2, replace=3.5, expandtabs=1, split=3.5, splitlines=1.5,
                 partition=2.5, assign_str=1.5, apply=1.5, remove=0.5, add=0.5),
-    'C12': dict(nonuniform=2, new=1, pad=6, apply=2, remove=0.5, slice=0.5, add=0.5),
+    'C12': dict(nonuniform=2, new=1, pad=5, fmt=5, apply=2, remove=0.5, slice=0.5, add=0.5),
     'C16': weights(matching=5, apply=3, remove=1, slice=0.5, render=0.2),
     'C17': weights(find_settings=5, settings_at=2.5, apply=4, remove=2, slice=0.5, add=0.7, iadd=0.7),
     'C04': weights(slice=5, index=2, clip=2, iter=0.6, apply=3, remove=1.5),
@@ -612,6 +640,28 @@ def build_styles(g, styles, shared):
             else:
                 k += 1
     return r
+
+
+def triple_cases(groups=None):
+    """Three characters over an ordered pair of groups (g, h), with and without a third setting K that stays on
+    (so that the optimiser emits differences instead of a reset): stale-state bugs need 'on, off, on again'."""
+    gs = sorted(GROUP_CODES) if groups is None else groups
+    cases = []
+    for g in gs:
+        for h in gs:
+            if g == h:
+                continue
+            xg, xh = GROUP_CODES[g][0][0], GROUP_CODES[h][0][0]
+            yg = GROUP_CODES[g][0][-1]
+            third = next(k for k in ('ital', 'cross', 'over') if k not in (g, h))
+            K = GROUP_CODES[third][0][0]
+            for keep in ([K], []):
+                cases.append([keep + [xg, xh], keep, keep + [xg]])
+                cases.append([keep + [xg, xh], keep + [xh], keep + [xg, xh]])
+                cases.append([keep + [xg], keep, keep + [xg, xh]])
+                cases.append([keep + [xg, xh], keep + [yg], keep + [xh]])
+                cases.append([keep + [xh, xg], keep + [xh], keep + [xg]])
+    return cases
 
 
 def gen_render_family(m, rng, job):
